@@ -100,7 +100,9 @@ recorded as a finding.
   peer rather than a source of malformed datagrams.  TSN choices are now disjoint from live
   traffic, FORWARD-TSN stays at or below the cumulative point, SACK bases are relative to
   `_last_sacked_tsn`.  The same rule was later extended to the "declared length lies" chunk stream, whose random
-  first four bytes had produced a FORWARD-TSN 2^30 ahead (a lying peer, not a malformed datagram).
+  first four bytes had produced a FORWARD-TSN 2^30 ahead (a lying peer, not a malformed datagram), and to SACKs
+  whose cumulative TSN covers chunks the peer has not received (indistinguishable from a genuine SACK: any SCTP
+  sender drops that data for good); such a value is replaced by what the peer really has received.
 * Hygiene scan matched `Abort` in another builder's scratch file and files outside the property's
   import closure: restricted to the closure; `Abort` (harmless) removed from the pattern.
 * `setup.sh` built every file under `coq/`, including work in progress of other properties: it
